@@ -72,3 +72,10 @@ Definition dispatch_spec (p : Z) (i o : sx) : bool :=
   | 20%Z => C20.Model.spec i o
   | _ => false
   end.
+
+(* assumption monitors: the well-formedness of the oracle values a case carries *)
+Definition dispatch_wf (p : Z) (i : sx) : bool :=
+  match p with
+  | 1%Z => C01.Model.wf i
+  | _ => true
+  end.
